@@ -234,6 +234,10 @@ class MemoryFile(File):
   def tell(self) -> int:
     return self._buffer.tell()
 
+  def truncate(self) -> None:
+    self._buffer.seek(0)
+    self._buffer.truncate()
+
   def flush(self) -> None:
     pass
 
@@ -282,6 +286,13 @@ class MemoryFileSystem(FileSystem):
 
     if file is None:
       raise FileNotFoundError(path)
+    if 'w' in mode:
+      # Opening for write replaces the content.
+      file.truncate()
+    elif 'a' in mode:
+      file.seek(0, 2)
+    else:
+      file.seek(0)
     return file
 
   def chmod(self, path: Union[str, os.PathLike[str]], mode: int) -> None:
